@@ -233,7 +233,25 @@ def run(ctx):
                     readers.add(k)
     allowed = {kv, prog.method_impl(fx, "ongoing_input_session"), prog.method_impl(fx, "backspace_event"),
                prog.method_impl(fx, "candidate_committed"), prog.method_impl(fx, "finish_input_session")}
-    extra = sorted(readers - allowed)
+    # private helpers reached only through the allowed functions are part of them (a split processor, a reset helper)
+    rcg = {}
+    for u, vs in prog.callgraph().items():
+        for v_ in vs:
+            rcg.setdefault(v_, set()).add(u)
+
+    def only_via_allowed(k):
+        seen, work = set(), [k]
+        while work:
+            u = work.pop()
+            if u in seen or u in allowed:
+                continue
+            seen.add(u)
+            callers = rcg.get(u, set()) - {u}
+            if not callers or (prog.fns[u].get("impl") or {}).get("trait") or prog.fns[u].get("no_mangle"):
+                return False
+            work.extend(callers)
+        return True
+    extra = sorted(k for k in readers - allowed if not only_via_allowed(k))
     sites, names = builders.suggestion_ctor_sites(prog)
     ctor_fns = {fk for (fk, bb, t, kind) in sites}
     if extra:
